@@ -1375,6 +1375,13 @@ class Interp:
         kwargs = {}
         for kw in e.keywords:
             if kw.arg is None:
+                d = self.eval(ctx, fr, kw.value)
+                if isinstance(d, VRef) and ctx.obj(d).kind == 'pydict':
+                    for k, v in ctx.obj(d).meta['pairs']:
+                        if not isinstance(k, VStr) or k.s is None:
+                            raise Unsupported('**kwargs with non-literal key', e)
+                        kwargs[k.s] = v
+                    continue
                 raise Unsupported('**kwargs call', e)
             kwargs[kw.arg] = self.eval(ctx, fr, kw.value)
         return self.call_value(ctx, fv, args, kwargs, e, fr)
@@ -1446,6 +1453,9 @@ class Interp:
         m, fn = source.find_function(qual)
         if fn is None:
             raise Unsupported('cannot find %s' % qual, node)
+        hk = ctx.hooks.get('call:' + qual)
+        if hk is not None:
+            return hk(ctx, args, kwargs, node)
         spec = self.reg.call_spec(qual)
         verifying_self = (ctx.cur_spec is not None and ctx.depth == 0 and
                           getattr(ctx, 'entered', False) is False)
@@ -1495,10 +1505,11 @@ class Interp:
                 fr.locals[p.arg] = self.eval(ctx, Frame(fr.modname, None, fr.funcq, {}), d)
             else:
                 raise Unsupported('missing kw-only argument', node)
-        if kwargs:
-            if a.kwarg is None:
-                raise Unsupported('unexpected keyword arguments %s' % list(kwargs), node)
-            raise Unsupported('**kwargs parameter', node)
+        if a.kwarg is not None:
+            fr.locals[a.kwarg.arg] = ctx.new_obj('pydict', meta={
+                'pairs': [(VStr(k), v) for k, v in kwargs.items()]})
+        elif kwargs:
+            raise Unsupported('unexpected keyword arguments %s' % list(kwargs), node)
 
     def inline(self, ctx, qual, fn, args, kwargs, node):
         mod, name = source.split_qual(qual)
